@@ -233,17 +233,30 @@ func Classify(r *Response, cfg Config) Class {
 			rawish++
 			continue
 		}
-		if !onlyBlanks(l.Pre) || !onlyBlanks(l.Post) || hasCRLF(l.Value) || hasCRLF(l.Name) {
+		// Pre and Post normally hold blanks (SP / HT), which a recipient
+		// ignores. Any other byte in them (VT, FF, CR, NUL, NBSP, NEL, ...) is
+		// part of the field value: "surrounding blanks" are SP and HT only.
+		// A CR is an ordinary byte unless it stands directly before a bare LF
+		// (then it is half of a CRLF); an LF always ends the line.
+		text := l.Pre + l.Value + l.Post
+		if l.Accept != AcceptLiteral {
+			text = l.Pre + "x" + l.Post
+		}
+		if strings.ContainsRune(text, '\n') || hasCRLF(l.Name) || (l.LF && strings.HasSuffix(text, "\r")) {
 			ambiguous = true
 			continue
 		}
+		junk := !onlyBlanks(l.Pre) || !onlyBlanks(l.Post)
 		if !IsToken(l.Name) {
 			c.Open = append(c.Open, "line:name-not-token")
 			rawish++
 			continue
 		}
 		name := asciiLower(l.Name)
-		v := trimBlank(l.Value)
+		v := trimBlank(l.Pre + l.Value + l.Post)
+		if junk {
+			c.Notes = append(c.Notes, "junk-padding")
+		}
 		special := true
 		switch name {
 		case HUpgrade:
@@ -275,7 +288,7 @@ func Classify(r *Response, cfg Config) Class {
 				conn.wrong++
 			}
 		case HAccept:
-			if l.Accept == AcceptRight {
+			if l.Accept == AcceptRight && !junk {
 				acc.right++
 			} else {
 				acc.wrong++
@@ -329,7 +342,7 @@ func Classify(r *Response, cfg Config) Class {
 		if special && l.Name != canonicalName[name] {
 			nameCase = true
 		}
-		if special && (l.Pre != " " || l.Post != "" || v != l.Value) {
+		if special && !junk && (l.Pre != " " || l.Post != "" || v != l.Value) {
 			padded = true
 		}
 	}
@@ -338,14 +351,16 @@ func Classify(r *Response, cfg Config) Class {
 	c.required("accept", acc)
 
 	// Subprotocol: "a subprotocol in the response must be one it requested".
-	bad, empty, list := 0, 0, 0
+	// The value as a whole (blanks around it ignored) has to be one of the
+	// requested tokens: a comma- or blank-separated list is not, whether or not
+	// a requested token occurs in it, and could not be returned as "the
+	// subprotocol the server sent" either.
+	bad, empty := 0, 0
 	for _, v := range protoVals {
 		switch {
 		case v == "":
 			empty++
 		case cfg.Requested(v):
-		case strings.ContainsAny(v, ", \t"):
-			list++
 		default:
 			bad++
 		}
@@ -356,11 +371,15 @@ func Classify(r *Response, cfg Config) Class {
 		// mixed values" are left open (DESIGN §4.10)
 		c.Open = append(c.Open, "protocol:dup-mixed")
 	case bad > 0:
-		c.Fail = append(c.Fail, "protocol:not-requested")
+		label := "protocol:not-requested"
+		for _, v := range protoVals {
+			if v != "" && !cfg.Requested(v) && strings.ContainsAny(v, ", \t;") {
+				label = "protocol:list"
+			}
+		}
+		c.Fail = append(c.Fail, label)
 	case empty > 0:
 		c.Open = append(c.Open, "protocol:empty")
-	case list > 0:
-		c.Open = append(c.Open, "protocol:list")
 	case len(protoVals) > 1:
 		c.Open = append(c.Open, "protocol:dup")
 	case len(protoVals) == 1:
